@@ -9,6 +9,7 @@ fn verif_top<'i>(tokens: Vec<LexToken<'i>>, tokens_raw: Vec<LexToken<'i>>, src: 
         p.pos == tokens@.len(), n_adv(p.events@) == tokens@.len(),
         nested(p.events@), rooted(p.events@), depth(p.events@) == 0,
         p.events@.len() >= 2, p.events@[0] == (Event::Open { kind: SyntaxKind::SOURCE_FILE }), p.events@.last() is Close,
+        p.errs_ok(),   // C20: every recorded syntax error points at a whole token of the parser or is empty at the end of the text
 {
     let mut p = @PARSER_LITERAL@;
     proof {
